@@ -475,6 +475,7 @@ async fn run_s3_async(case: &Case) -> Outcome {
     let mut cur: Vec<PL> = Vec::new();
     let mut dl = Deadlines::default();
     let mut decided_at = vec![0i64; n]; // hook-clock time of the node's latest load (= decision)
+    let mut wrote_in_op = vec![false; n]; // the node's current operation had a successful PUT of its own
     for step in &case.sched {
         match step {
             Step::Tick(d) => {
@@ -493,6 +494,7 @@ async fn run_s3_async(case: &Case) -> Outcome {
                     let _ = starts[c].send(());
                     started[c] += 1;
                     inop[c] = true;
+                    wrote_in_op[c] = false;
                     if ctl.wait_for(c).await.is_none() {
                         out.bad.push(format!("node {} finished an operation without any object-store request", c));
                         let _ = ctl.take_note(c);
@@ -573,6 +575,7 @@ async fn run_s3_async(case: &Case) -> Outcome {
                         match parsed {
                             Some(ls) => {
                                 let t = canon_table(&ls, base, &m);
+                                wrote_in_op[c] = true;
                                 // this write is the commit of node c's operation, decided at its latest load
                                 match &op {
                                     Op::A { id, .. } => dl.acquired(*id, decided_at[c]),
@@ -605,6 +608,27 @@ async fn run_s3_async(case: &Case) -> Outcome {
                                 versions.push((c, Vec::new()));
                             }
                         }
+                    }
+                }
+                // an operation that reports success must have taken effect: a renew / acquire that
+                // returns Ok has a successful PUT of its own, and the version it wrote carries the
+                // lease with expiry = decide time + TTL (the oracle's deadline)
+                if finished {
+                    match &op {
+                        Op::R(i) if last_result == "U" => {
+                            let stored = cur.iter().find(|l| l.id == *i).map(|l| l.exp);
+                            if !wrote_in_op[c] {
+                                out.bad.push(format!("renew of lease {} by node {} reported success at t={}s but wrote nothing: the stored expiry did not move (still {:?}s) and the holder was not told", i, c, now_s, stored));
+                            } else if versions.last().map(|(w, _)| *w) == Some(c) && stored != Some(decided_at[c] + ORACLE_TTL_S) {
+                                out.bad.push(format!("renew of lease {} by node {} reported success but the version it wrote stores expiry {:?}s instead of {}s", i, c, stored, decided_at[c] + ORACLE_TTL_S));
+                            }
+                        }
+                        Op::A { id, .. } if last_result.starts_with('L') => {
+                            if !wrote_in_op[c] {
+                                out.bad.push(format!("acquire {} by node {} returned a lease at t={}s but wrote nothing", id, c, now_s));
+                            }
+                        }
+                        _ => {}
                     }
                 }
             }
@@ -837,9 +861,9 @@ fn gen_random(rng: &mut Rng) -> Case {
 
 /// node 0 loses the conditional PUT `rounds` times in a row against commits of node 1
 fn gen_starvation(rng: &mut Rng) -> Case {
-    let victim = match rng.below(5) {
+    let victim = match rng.below(7) {
         0 => Op::A { id: 1, holder: 10, chunks: vec![1], level: 0 },
-        1 => Op::R(2),
+        1 | 5 | 6 => Op::R(2),
         2 => Op::C(2),
         3 => Op::F(2),
         _ => Op::A { id: 1, holder: 10, chunks: vec![3, 1], level: 1 },
@@ -924,6 +948,37 @@ fn gen_renew_then_silence(rng: &mut Rng) -> Case {
     Case { progs, sched }
 }
 
+/// a holder renews every 120 s for 16+ rounds (lease older than 30 min, never
+/// expired); another node scavenges, a third tries an overlapping acquire, the
+/// holder renews again: the lease must survive all of it
+fn gen_long_lived(rng: &mut Rng) -> Case {
+    let rounds = rng.range_usize(16, 20);
+    let mut p0 = vec![Op::A { id: 1, holder: 10, chunks: vec![1, 2], level: 0 }];
+    for _ in 0..(rounds + 2) {
+        p0.push(Op::R(1));
+    }
+    let c2: Vec<u32> = if rng.chance(1, 2) { vec![2, 3] } else { vec![1] };
+    let progs = vec![p0, vec![Op::S, Op::S], vec![Op::A { id: 2, holder: 12, chunks: c2.clone(), level: 0 }, Op::A { id: 3, holder: 12, chunks: c2, level: 0 }]];
+    let mut sched = vec![Step::Req(0), Step::Req(0)];
+    let early = rng.range_usize(0, rounds - 1);
+    for r in 0..rounds {
+        sched.push(Step::Tick(120));
+        sched.push(Step::Req(0));
+        sched.push(Step::Req(0));
+        if r == early && rng.chance(1, 2) {
+            sched.extend([Step::Req(1), Step::Req(1)]); // an early scavenge (lease still young)
+        }
+    }
+    let d = *rng.pick(&[5u64, 60, 115]);
+    sched.push(Step::Tick(d));
+    sched.extend([Step::Req(1), Step::Req(1)]); // scavenge by node 1
+    sched.extend([Step::Req(2), Step::Req(2)]); // overlapping acquire by node 2
+    sched.push(Step::Tick(120 - d));
+    sched.extend([Step::Req(0), Step::Req(0)]); // the holder's next renew
+    sched.extend([Step::Req(2), Step::Req(2)]); // and another acquire attempt
+    Case { progs, sched }
+}
+
 /// exhaustive small scope: 2 nodes, (acquire; renew) against (acquire | scavenge | renew ...),
 /// every request interleaving of length `len`, one tick of 295/300/305 s at every position
 fn exhaustive(len: usize) -> Vec<Case> {
@@ -986,6 +1041,11 @@ fn corpus() -> Vec<Case> {
         "S|0|A.1.10.1+2.0,R.1,R.1,R.1/A.2.11.2+3.0,A.3.11.2+3.0|q0,q0,t120000,q0,q0,t120000,q0,q0,t120000,q0,q0,t295000,q1,t5000,q1,q1",
         // two renewals, silence of 420 s, the other node takes over, the old holder is told
         "S|0|A.1.10.2.0,R.1,R.1,R.1/A.2.11.2+3.0|q0,q0,t120000,q0,q0,t120000,q0,q0,t420000,q1,q1,q0",
+        // a renewing holder loses MAX_CAS_RETRIES conditional PUTs in a row: it must be told (TooManyRetries)
+        "S|0|A.1.10.1.0,R.1/A.2.11.2.0,R.2,R.2,R.2,R.2,R.2,R.2|q0,q0,q1,q1,q0,q1,q1,q0,q0,q1,q1,q0,q0,q1,q1,q0,q0,q1,q1,q0,q0,q1,q1,q0,q0",
+        // 16 renewals at 120 s (lease age 1920 s, never expired), then scavenge by node 1, overlapping
+        // acquire by node 2, the holder's next renew
+        "S|0|A.1.10.1+2.0,R.1,R.1,R.1,R.1,R.1,R.1,R.1,R.1,R.1,R.1,R.1,R.1,R.1,R.1,R.1,R.1,R.1,R.1/S,S/A.2.12.2+3.0,A.3.12.2+3.0|q0,q0,t120000,q0,q0,t120000,q0,q0,t120000,q0,q0,t120000,q0,q0,t120000,q0,q0,t120000,q0,q0,t120000,q0,q0,t120000,q0,q0,t120000,q0,q0,t120000,q0,q0,t120000,q0,q0,t120000,q0,q0,t120000,q0,q0,t120000,q0,q0,t120000,q0,q0,t120000,q0,q0,t60000,q1,q1,q2,q2,t60000,q0,q0,q2,q2",
         // three nodes, first-write race of all three
         "S|0|A.1.10.1.0/A.2.11.1+2.0/A.3.12.2+3.0|q0,q1,q2,q2,q1,q0,q0,q1,q1,q0",
     ];
@@ -1081,6 +1141,10 @@ fn main() {
     for _ in 0..(if thorough { 4000 } else { 400 }) {
         let mut r = rng.fork();
         cases.push(("renew_then_silence", gen_renew_then_silence(&mut r)));
+    }
+    for _ in 0..(if thorough { 400 } else { 40 }) {
+        let mut r = rng.fork();
+        cases.push(("long_lived", gen_long_lived(&mut r)));
     }
     for _ in 0..(if thorough { 40000 } else { 3000 }) {
         let mut r = rng.fork();
